@@ -169,6 +169,7 @@ def cmd_benign(args):
             ap_ = subprocess.run(["git", "-C", d, "apply", patch], capture_output=True, text=True)
             if ap_.returncode != 0:
                 print("BENIGN %s: patch does not apply: %s" % (name, ap_.stderr[:300]))
+                alarms.append((name, "patch does not apply", -1))
                 continue
             n += 1
             for prop in props:
